@@ -338,7 +338,10 @@ func (vc *VC) instantiatedQuery(mark int, goal Term, sliced bool, lean bool) (st
 				for _, sk := range skolems {
 					parts := strings.SplitN(sk.atom, "!", 4) // sk!N!stem!qM
 					if len(parts) >= 3 && parts[2] == stem {
-						out = append(out, sk, plusSx(sk, 1), plusSx(sk, -1))
+						out = append(out, sk)
+						if len(vars) == 1 {
+							out = append(out, plusSx(sk, 1), plusSx(sk, -1))
+						}
 						seen := map[string]bool{}
 						for _, t := range skTerms[sk.atom] {
 							if ts := t.String(); !seen[ts] && len(seen) < 6 {
@@ -348,11 +351,37 @@ func (vc *VC) instantiatedQuery(mark int, goal Term, sliced bool, lean bool) (st
 						}
 					}
 				}
+				if len(vars) == 1 || len(out) == 0 {
+					// also the skolems of other goal variables (a one-variable hypothesis is
+					// often needed at each of the goal's variables)
+					have := map[string]bool{}
+					for _, o := range out {
+						have[o.String()] = true
+					}
+					for _, sk := range skolems {
+						if !have[sk.atom] {
+							out = append(out, sk)
+							if len(vars) == 1 {
+								out = append(out, plusSx(sk, 1), plusSx(sk, -1))
+							}
+						}
+					}
+				}
 				if len(out) == 0 && !lean {
 					if len(vars) > 1 {
 						out = plainSeeds
 					} else {
 						out = seedList
+					}
+				}
+				if len(vars) == 1 {
+					// small literal indices (fixed-size encodings are proved byte by byte)
+					nlit := 4
+					if !lean {
+						nlit = 8
+					}
+					for d := 0; d < nlit; d++ {
+						out = append(out, atomSx(fmt.Sprint(d)))
 					}
 				}
 				return out
